@@ -98,6 +98,47 @@ CHECKS = {
         note="Faults are loss and CRC-type corruption per frame; no timer "
              "races; the channel and frame parser are sim/depchan.py; the "
              "grid is a covering selection stated in the evidence."),
+    'C01': dict(
+        category='exploration', design='2/C01',
+        technique="exhaustive enumeration of a layout x length x content "
+                  "grid on stateful tag simulators against independent "
+                  "layout models",
+        text="Real tag classes (Type 1/2/3/4 incl. vendor subclasses and the "
+             "library's own Type 3 emulation) created by nfc.tag.activate on "
+             "byte-array tag simulators; for every well-formed layout of the "
+             "generator and every message length 0..capacity+1 (boundary sets "
+             "for large tags) the write must succeed, a fresh activation must "
+             "read the same octets, capacity must not exceed the independent "
+             "layout model and capacity+1 must be rejected before any command.",
+        note="Simulators (sim/t1t..t4t.py) and layout models (ref/tlv.py, "
+             "ref/t3.py, ref/t4.py) are the trusted base; grid in the "
+             "evidence."),
+    'C02': dict(
+        category='fault_enumeration', design='2/C02',
+        technique="exhaustive crash-point enumeration (power cut after every "
+                  "state-changing command) of NDEF writes on tag simulators",
+        text="For every write of the grid (tag types, NDEF TLV offsets not "
+             "aligned to the write unit, old/new lengths around the 1/3-byte "
+             "length boundary) the write is repeated with the tag leaving the "
+             "field after the k-th state-changing command for every k; a "
+             "fresh reader must then see the old message, an empty/unreadable "
+             "area or the complete new message.",
+        note="A cut is modelled between commands (a command is atomic at the "
+             "tag); FeliCa Lite-S write_with_mac is not covered."),
+    'C03': dict(
+        category='exploration', design='2/C03',
+        technique="exhaustive enumeration of layouts x lengths x format "
+                  "variants with byte-wise memory diff against an independent "
+                  "layout model",
+        text="On the C01 layouts plus control TLVs in every relative position, "
+             "every write and format()/format(wipe) is executed on simulators "
+             "that record each write with its address range and make lock/OTP "
+             "bits one-way; the memory diff must be confined to the NDEF area "
+             "computed by the independent model and no write command may "
+             "address a unit wholly outside it.",
+        note="As C01; format of products that re-create management data by "
+             "design is judged on UID/lock/OTP/reserved/out-of-area bytes "
+             "only."),
 }
 
 NOT_YET = "check not built yet in this round (see DESIGN.md section 2 for the planned design)"
